@@ -40,7 +40,11 @@ HOSTILE = ['"abc', "'", '"""', "(", ")", "[", "]", "1...", "...", "…", "--1", 
            # nested deeper than the regular expression parser recurses
            "(" * 600 + "a" + ")" * 600,
            # in range, but with more digits than the decimal context carries; what the csv module calls its quoting modes
-           "1,5" + "0" * 30, "1.5" + "0" * 30, "nonnumeric", "strings", "notnull"]
+           "1,5" + "0" * 30, "1.5" + "0" * 30, "nonnumeric", "strings", "notnull",
+           # a rule is evaluated as a Python expression: it must not be able to end the process
+           "id < exit()", "id < __import__('sys').exit(3)",
+           # numbers Python can hold but not print (more than 4300 digits), or not convert (exponent beyond a C int)
+           "0x" + "f" * 4000, "1...0x" + "f" * 4000, "0...1e-9999999999"]
 RULE_TEXT = (
     "fault enumeration: sweep of (base CID or data table, row, column, hostile value) single-cell replacements (see "
     "sweep_note) plus seeded scenarios with two hostile cells at once or one container fault (truncate / bitflip / "
